@@ -15,8 +15,14 @@ func TestVF_Debug(t *testing.T) {
 	}
 	vfGetPKI()
 	res := vfNewResult("C16", "debug")
-	c := vfC16Case{Variant: "13", Phase: "established", Actor: "c", Action: "read-deadline", K: 0, Idx: 348}
-	vfBubbles(t, 6000, func(t *testing.T, i int) { vfC16Run(t, res, c) })
+	var cases []vfC16Case
+	for _, c := range vfC16Cases() {
+		if c.Action == "read-deadline" && c.Phase == "established" {
+			cases = append(cases, c)
+		}
+	}
+	fmt.Println("cases", len(cases))
+	vfBubbles(t, len(cases)*400, func(t *testing.T, i int) { vfC16Run(t, res, cases[i%len(cases)]) })
 	for _, v := range res.Violations {
 		fmt.Println(v.Signature, v.What)
 	}
